@@ -2654,13 +2654,24 @@ func (m *Msg) encodeString(str string) string {
 // References:
 //   - https://datatracker.ietf.org/doc/html/rfc2046
 func (m *Msg) hasAlt() bool {
+	return m.bodyPartCount() > 1 && m.pgptype == 0
+}
+
+// bodyPartCount returns the number of body parts of the Msg that are written as such.
+//
+// Parts that have been deleted and the S/MIME signature part are not body parts: they must not
+// influence the multipart structure of the message.
+//
+// Returns:
+//   - The number of parts that are neither deleted nor a S/MIME signature.
+func (m *Msg) bodyPartCount() int {
 	count := 0
 	for _, part := range m.parts {
 		if !part.isDeleted && !part.smime {
 			count++
 		}
 	}
-	return count > 1 && m.pgptype == 0
+	return count
 }
 
 // hasMixed returns true if the Msg has mixed parts.
@@ -2675,7 +2686,7 @@ func (m *Msg) hasAlt() bool {
 // References:
 //   - https://datatracker.ietf.org/doc/html/rfc2046#section-5.1.3
 func (m *Msg) hasMixed() bool {
-	return m.pgptype == 0 && ((len(m.parts) > 0 && len(m.attachments) > 0) ||
+	return m.pgptype == 0 && ((m.bodyPartCount() > 0 && len(m.attachments) > 0) ||
 		(len(m.embeds) > 0 && len(m.attachments) > 0) || len(m.attachments) > 1)
 }
 
@@ -2711,7 +2722,7 @@ func (m *Msg) isSMIMEInProgress() bool {
 // References:
 //   - https://datatracker.ietf.org/doc/html/rfc2387
 func (m *Msg) hasRelated() bool {
-	return m.pgptype == 0 && ((len(m.parts) > 0 && len(m.embeds) > 0) || len(m.embeds) > 1)
+	return m.pgptype == 0 && ((m.bodyPartCount() > 0 && len(m.embeds) > 0) || len(m.embeds) > 1)
 }
 
 // hasPGPType returns true if the Msg should be treated as a PGP-encoded message.
